@@ -53,6 +53,11 @@ def generate(seed, tier="quick"):
         for op in ops:
             if op["op"] == "update" and rng.random() < 0.2:
                 op["fault"] = {"kind": rng.choice(SIMPLE_FAULTS), "at_call": rng.randrange(10_000)}
+            elif op["op"] == "update_all" and rng.random() < 0.3:
+                # a bulk update that fails part-way: minerals before the failing one have
+                # appended one snapshot, the failing one and those after it none
+                op["fault"] = {"kind": rng.choice(["L_raises", "position_raises"]),
+                               "at_call": rng.randrange(10_000)}
         ops = _retry_after_faults(ops)
     return {"property": PROPERTY, "engine": "world", "seed": seed, "world": world, "ops": ops}
 
@@ -88,6 +93,7 @@ def _retry_after_faults(ops):
         if op["op"] == "update" and op.get("fault"):
             clean = {k: v for k, v in op.items() if k != "fault"}
             out.append(clean)
+        # (a failed bulk update is not retried: the minerals it did update have moved on)
     return out
 
 
@@ -132,6 +138,8 @@ def execute(scn):
             "snapshots_checked": mon.n_snap_checked,
             "restarts": sum(1 for r in log if r["op"] == "restart"),
             "bulk_updates": sum(1 for r in log if r["op"] == "update_all"),
+            "bulk_updates_failed_part_way": sum(1 for r in log if r["op"] == "update_all"
+                                                and r["status"] != "ok" and r.get("fired")),
             "init_checked": init_checked,
             "clean_attempted": mon.attempted_clean,
             "clean_completed": mon.completed,
@@ -177,7 +185,7 @@ ASSUMPTIONS = [
     "scipy LSODA trusted as a black box",
     "updates that raise without an injected fault are counted as rejected (statement quantifies over accepted updates)",
 ]
-PROBES = ["restarts", "bulk_updates", "init_checked", "long_history(>=50 updates)",
+PROBES = ["restarts", "bulk_updates", "bulk_updates_failed_part_way", "init_checked", "long_history(>=50 updates)",
           "zero_volume_grain_present", "fault_fired.L_raises", "fault_fired.solver_failed"]
 
 
